@@ -142,8 +142,10 @@ def __specialise__(zero: T, names: Iterable[str]) -> Type[ResourceLevels[T]]:
     :param names: names of fields
     """
     fields = tuple(sorted(names))
+    # the zero belongs to the type: 0 and 0.0 are equal but fill fields differently
+    key = fields, type(zero), zero
     try:
-        return ResourceLevels.__specialisation_cache__[fields]
+        return ResourceLevels.__specialisation_cache__[key]
     except KeyError:
         pass
 
@@ -165,7 +167,7 @@ def __specialise__(zero: T, names: Iterable[str]) -> Type[ResourceLevels[T]]:
         def __ne__(self, other):
             return not self == other
 
-    ResourceLevels.__specialisation_cache__[fields] = SpecialisedResourceLevels
+    ResourceLevels.__specialisation_cache__[key] = SpecialisedResourceLevels
     return SpecialisedResourceLevels
 
 
